@@ -387,6 +387,11 @@ def run_case(spec, work):
           'q1_min_th': float(rng.choice([0.05, 0.1, 0.3])),
           'qdiff_min_th': float(rng.choice([0.05, 0.1, 0.3])),
           'log2_fold_min_th': float(rng.choice([0.2, 0.8, 1.5]))}
+    if rng.random() < 0.25:
+        # floors switched off altogether (still below the strict values)
+        th['q1_min_th'] = 0.0
+        th['qdiff_min_th'] = 0.0
+        th['log2_fold_min_th'] = float(rng.choice([0.0, -1.0]))
     th['q1_th'] = th['q1_min_th'] + float(rng.choice([0.1, 0.4]))
     th['qdiff_th'] = th['qdiff_min_th'] + float(rng.choice([0.1, 0.5]))
     th['log2_fold_th'] = th['log2_fold_min_th'] + float(
